@@ -7,6 +7,7 @@ package main
 
 import (
 	"fmt"
+	"strings"
 	"unsafe"
 
 	"github.com/couchbase/nitro"
@@ -290,7 +291,18 @@ func smrJobs(prop string) func(tier string) []Job {
 			if tier == "thorough" {
 				delay = 3
 			}
-			jobs = append(jobs, Job{Name: fmt.Sprintf("%s/conc/%s/delay%d", prop, d.name, delay), Shards: 2, Run: func(jc *JobCtx) { runSmrDriver(jc, prop, d, vrt.CostDelay, delay) }})
+			heavy := d.delta || d.writers >= 3
+			if heavy && tier != "thorough" && (prop != "C04" || strings.Contains(d.name, "shards2")) {
+				continue // quick tier: the one-shard backup and three-writer drivers run under C04 only
+			}
+			dshards := 2
+			if heavy {
+				dshards = 8
+			}
+			jobs = append(jobs, Job{Name: fmt.Sprintf("%s/conc/%s/delay%d", prop, d.name, delay), Shards: dshards, Run: func(jc *JobCtx) { runSmrDriver(jc, prop, d, vrt.CostDelay, delay) }})
+			if heavy && tier != "thorough" {
+				continue // preemption bounding of these drivers is thorough-tier work
+			}
 			shards := 8
 			if tier == "thorough" {
 				shards = 16
